@@ -72,12 +72,16 @@ structure BitsReader where
   byteIndex : Nat := 0
   availBitCount : Nat := 0
   eof : Bool := false        -- lastError == io.EOF
+  eofPadded : Bool := false  -- the 56 padding bits were appended at the end of buf
   panicked : Bool := false   -- `panic("at most 56 bits can be peeked")` was reached
   deriving Repr
 
 namespace BitsReader
 
 def reset (_ : BitsReader) (buf : Bytes) : BitsReader := { buf := buf }
+
+/-- Go: `Error() != nil`: a refill was attempted at exhaustion, or padding bits were consumed. -/
+def err (b : BitsReader) : Bool := b.eof || (b.eofPadded && decide (b.availBitCount < 56))
 
 /-- the loop of `refillSlow`. -/
 def refillLoop (b : BitsReader) : Nat → BitsReader
@@ -95,7 +99,7 @@ def refillSlow (b : BitsReader) : BitsReader :=
   if b.byteIndex ≥ b.buf.length then { b with eof := true }
   else
     let b := refillLoop b 8
-    if b.byteIndex ≥ b.buf.length then { b with availBitCount := b.availBitCount + 56 } else b
+    if b.byteIndex ≥ b.buf.length then { b with availBitCount := b.availBitCount + 56, eofPadded := true } else b
 
 /-- big-endian 64-bit load at `i` (caller guarantees 8 bytes are there). -/
 def load64 (buf : Bytes) (i : Nat) : Word :=
